@@ -45,7 +45,8 @@ CLAIMED = {
  "C13": dict(text="Theorems: apply_cropping = closed-interval filter on x,y,dy (order preserved, membership iff in [lo,hi]); crop idempotent; "
              "fourier_transform with a window = fourier_transform of the pre-deleted data with the same window, as a full-triple "
              "equality for every option set (Lorch, correction); inputs agreeing inside the window give identical results; no window = "
-             "identity crop. Non-finite outside values are exercised on the real code.", ref="8 (C13)",
+             "identity crop; a window with lower limit above upper limit is empty (P_crop_reversed_empty, P_apply_cropping_reversed_empty). Non-finite outside "
+             "values are exercised on the real code.", ref="8 (C13), 42",
              tech="Lean 4 theorems on translator output (filter/compress lemmas) + correspondence + bitwise oracle"),
  "C14": dict(text="Theorems: Lorch weight = sin(ax)/(ax), exactly 1 at x=0, |w|<=1; Lorch transform = plain transform of pre-multiplied data and "
              "of pre-multiplied uncertainties (any window/grid); no uninitialised read reachable (translator fact, decide) and the "
